@@ -196,4 +196,144 @@ theorem readDirBytes_zipBytes (crc32 : Bytes → Nat) (inflate : Bytes → Optio
       some (zs.map fun z => (z.name, z.content)) :=
   readDirBytes_zipBytes_shift crc32 inflate pre pre.length zs hz hcount hsize
 
+/-! ### the tiling check of the repaired CQM loader -/
+
+theorem infosOf_offsets_ge : ∀ (zs : List ZEntry) (off : Nat), ∀ i ∈ infosOf off zs, off ≤ i.offset
+  | [], _, i, hi => by simp [infosOf] at hi
+  | z :: zs, off, i, hi => by
+    simp only [infosOf, List.mem_cons] at hi
+    rcases hi with rfl | hi
+    · exact Nat.le_refl _
+    · have := infosOf_offsets_ge zs _ i hi; omega
+
+theorem sortByOffset_infosOf : ∀ (zs : List ZEntry) (off : Nat), sortByOffset (infosOf off zs) = infosOf off zs
+  | [], _ => rfl
+  | z :: zs, off => by
+    simp only [infosOf, sortByOffset, sortByOffset_infosOf zs]
+    cases h : infosOf (off + (localEntry z).length) zs with
+    | nil => rfl
+    | cons j t =>
+      have := infosOf_offsets_ge zs (off + (localEntry z).length) j (by rw [h]; simp)
+      simp only [insertByOffset]
+      rw [if_pos (by simp only [infoOf]; omega)]
+
+theorem localFixed_lengths (z : ZEntry) : (localFixed z).drop 26 = toLE 2 z.name.length ++ toLE 2 z.lextra.length := by
+  simp [localFixed, sigLocal, toLE]
+
+theorem tilesFrom_locals (sd ocd : Nat) (crc32 : Bytes → Nat) (inflate : Bytes → Option Bytes) :
+    ∀ (zs : List ZEntry) (pre post : Bytes) (off : Nat), off + sd = pre.length + ocd → (∀ z ∈ zs, z.OK crc32 inflate) →
+    tilesFrom (pre ++ (zipLocals zs ++ post)) sd ocd pre.length (infosOf off zs) = some (pre.length + (zipLocals zs).length)
+  | [], _, _, _, _, _ => by simp [tilesFrom, infosOf, zipLocals]
+  | z :: zs, pre, post, off, hoc, hz => by
+    obtain ⟨_, _, _, _, _, hn, hle, _, _, _⟩ := hz z (by simp)
+    have hpos : off + sd - ocd = pre.length := by omega
+    have h2 : pre ++ (zipLocals (z :: zs) ++ post) = (pre ++ localEntry z) ++ (zipLocals zs ++ post) := by simp [zipLocals]
+    have hrest := tilesFrom_locals sd ocd crc32 inflate zs (pre ++ localEntry z) post (off + (localEntry z).length)
+      (by rw [List.length_append]; omega) (fun y hy => hz y (by simp [hy]))
+    rw [← h2] at hrest
+    have hlen : ((pre ++ (zipLocals (z :: zs) ++ post)).drop (pre.length + 26)).take 4 = toLE 2 z.name.length ++ toLE 2 z.lextra.length := by
+      have e : pre ++ (zipLocals (z :: zs) ++ post) = pre ++ (localFixed z ++ (z.name ++ (z.lextra ++ (z.stored ++ (zipLocals zs ++ post))))) := by
+        simp [zipLocals, localEntry, List.append_assoc]
+      rw [e, ← List.drop_drop, List.drop_left' rfl, List.drop_append_of_le_length (by rw [localFixed_length]; omega), localFixed_lengths,
+        List.take_left' (by simp [toLE_length])]
+    simp only [infosOf, tilesFrom, infoOf]
+    rw [if_neg (by omega), hpos, hlen]
+    simp only [ne_eq, not_true_eq_false, List.length_append, toLE_length, or_self, if_false,
+      List.take_left' (toLE_length 2 _), List.drop_left' (toLE_length 2 _), leNat_toLE 2 _ hn, leNat_toLE 2 _ hle]
+    have hl : (pre ++ localEntry z).length = pre.length + 30 + z.name.length + z.lextra.length + z.stored.length := by
+      rw [List.length_append, localEntry_length]; omega
+    rw [hl] at hrest
+    rw [hrest]
+    simp only [zipLocals, List.length_append, localEntry_length]
+    congr 1; omega
+
+/-- **the tiling check accepts every archive the writer appended** (no valid file is refused): for the file
+    `pre ++ zipBytes pre.length zs` and `start = pre.length` the walk ends exactly at the central directory -/
+theorem openTiled_zipBytes (crc32 : Bytes → Nat) (inflate : Bytes → Option Bytes) (pre : Bytes) (zs : List ZEntry)
+    (hz : ∀ z ∈ zs, z.OK crc32 inflate) (hcount : zs.length < 256 ^ 2)
+    (hsize : pre.length + (zipLocals zs).length + (zipCD pre.length zs).length < 4294967295) :
+    openTiled crc32 inflate pre.length (pre ++ zipBytes pre.length zs) = some (zs.map fun z => (z.name, z.content)) := by
+  have h256 : (256 : Nat) ^ 4 = 4294967296 := by decide
+  obtain ⟨a, b, c⟩ := eocdRecord_shape zs.length (zipCD pre.length zs).length (pre.length + (zipLocals zs).length)
+  obtain ⟨hs, ho, _⟩ := eocdRecord_fields zs.length (zipCD pre.length zs).length (pre.length + (zipLocals zs).length)
+    (pre ++ (zipLocals zs ++ zipCD pre.length zs)).length (by omega) (by omega) hcount
+  have hfile : pre ++ zipBytes pre.length zs = (pre ++ (zipLocals zs ++ zipCD pre.length zs)) ++
+      eocdRecord zs.length (zipCD pre.length zs).length (pre.length + (zipLocals zs).length) := by
+    simp [zipBytes, List.append_assoc]
+  unfold openTiled
+  rw [hfile, endRecData_full _ _ a b c]
+  have hxl : (pre ++ (zipLocals zs ++ zipCD pre.length zs)).length = pre.length + (zipLocals zs).length + (zipCD pre.length zs).length := by
+    simp; omega
+  have hsd : (EndRec.mk (pre ++ (zipLocals zs ++ zipCD pre.length zs)).length
+      (eocdRecord zs.length (zipCD pre.length zs).length (pre.length + (zipLocals zs).length))).startDir =
+      some (pre.length + (zipLocals zs).length) := by
+    unfold EndRec.startDir
+    simp only [hs]
+    rw [if_neg (by omega)]
+    congr 1; omega
+  simp only [hsd]
+  simp only [hs, ho]
+  have hfile1 : (pre ++ (zipLocals zs ++ zipCD pre.length zs)) ++
+      eocdRecord zs.length (zipCD pre.length zs).length (pre.length + (zipLocals zs).length) =
+      (pre ++ zipLocals zs) ++ (zipCD pre.length zs ++ eocdRecord zs.length (zipCD pre.length zs).length (pre.length + (zipLocals zs).length)) := by
+    simp [List.append_assoc]
+  have hcd : (((pre ++ (zipLocals zs ++ zipCD pre.length zs)) ++
+      eocdRecord zs.length (zipCD pre.length zs).length (pre.length + (zipLocals zs).length)).drop (pre.length + (zipLocals zs).length)).take
+        (zipCD pre.length zs).length = zipCD pre.length zs := by
+    rw [hfile1, List.drop_left' (by simp), List.take_left' rfl]
+  rw [hcd, parseCD_zipCD crc32 inflate zs pre.length _ hz (by omega) (by omega)]
+  simp only [sortByOffset_infosOf]
+  have hfile2 : (pre ++ (zipLocals zs ++ zipCD pre.length zs)) ++
+      eocdRecord zs.length (zipCD pre.length zs).length (pre.length + (zipLocals zs).length) =
+      pre ++ (zipLocals zs ++ (zipCD pre.length zs ++ eocdRecord zs.length (zipCD pre.length zs).length (pre.length + (zipLocals zs).length))) := by
+    simp [List.append_assoc]
+  rw [hfile2, tilesFrom_locals _ _ crc32 inflate zs pre _ pre.length (by omega) hz, if_pos rfl]
+  exact readMembers_locals_shift crc32 inflate _ _ zs pre _ pre.length (by omega) hz
+
+/-- **the tiling check refuses an archive that does not start where the header ended**: a non-empty archive written for
+    any offset `base` and sitting after `pre.length ≠ start` bytes — in particular the archive spelled by a payload in a file
+    cut right after it (`embedded_archive_opens` shows that `zipfile` alone opens it). -/
+theorem openTiled_embedded_none (crc32 : Bytes → Nat) (inflate : Bytes → Option Bytes) (pre : Bytes) (base start : Nat) (z : ZEntry)
+    (zs : List ZEntry) (hstart : pre.length ≠ start) (hz : ∀ y ∈ z :: zs, y.OK crc32 inflate) (hcount : (z :: zs).length < 256 ^ 2)
+    (hsize : base + (zipLocals (z :: zs)).length + (zipCD base (z :: zs)).length < 4294967295) :
+    openTiled crc32 inflate start (pre ++ zipBytes base (z :: zs)) = none := by
+  have h256 : (256 : Nat) ^ 4 = 4294967296 := by decide
+  generalize hzz : z :: zs = zz at hz hcount hsize
+  obtain ⟨a, b, c⟩ := eocdRecord_shape zz.length (zipCD base zz).length (base + (zipLocals zz).length)
+  obtain ⟨hs, ho, _⟩ := eocdRecord_fields zz.length (zipCD base zz).length (base + (zipLocals zz).length)
+    (pre ++ (zipLocals zz ++ zipCD base zz)).length (by omega) (by omega) hcount
+  have hfile : pre ++ zipBytes base zz = (pre ++ (zipLocals zz ++ zipCD base zz)) ++
+      eocdRecord zz.length (zipCD base zz).length (base + (zipLocals zz).length) := by
+    simp [zipBytes, List.append_assoc]
+  unfold openTiled
+  rw [hfile, endRecData_full _ _ a b c]
+  have hxl : (pre ++ (zipLocals zz ++ zipCD base zz)).length = pre.length + (zipLocals zz).length + (zipCD base zz).length := by
+    simp; omega
+  have hsd : (EndRec.mk (pre ++ (zipLocals zz ++ zipCD base zz)).length
+      (eocdRecord zz.length (zipCD base zz).length (base + (zipLocals zz).length))).startDir = some (pre.length + (zipLocals zz).length) := by
+    unfold EndRec.startDir
+    simp only [hs]
+    rw [if_neg (by omega)]
+    congr 1; omega
+  simp only [hsd]
+  simp only [hs, ho]
+  have hfile1 : (pre ++ (zipLocals zz ++ zipCD base zz)) ++ eocdRecord zz.length (zipCD base zz).length (base + (zipLocals zz).length) =
+      (pre ++ zipLocals zz) ++ (zipCD base zz ++ eocdRecord zz.length (zipCD base zz).length (base + (zipLocals zz).length)) := by
+    simp [List.append_assoc]
+  have hcd : (((pre ++ (zipLocals zz ++ zipCD base zz)) ++ eocdRecord zz.length (zipCD base zz).length (base + (zipLocals zz).length)).drop
+      (pre.length + (zipLocals zz).length)).take (zipCD base zz).length = zipCD base zz := by
+    rw [hfile1, List.drop_left' (by simp), List.take_left' rfl]
+  rw [hcd, parseCD_zipCD crc32 inflate zz base _ hz (by omega) (by omega)]
+  simp only [sortByOffset_infosOf]
+  subst hzz
+  have ht : tilesFrom ((pre ++ (zipLocals (z :: zs) ++ zipCD base (z :: zs))) ++
+      eocdRecord (z :: zs).length (zipCD base (z :: zs)).length (base + (zipLocals (z :: zs)).length))
+      (pre.length + (zipLocals (z :: zs)).length) (base + (zipLocals (z :: zs)).length) start (infosOf base (z :: zs)) = none := by
+    simp only [infosOf, tilesFrom, infoOf]
+    rw [if_neg (by omega)]
+    have : base + (pre.length + (zipLocals (z :: zs)).length) - (base + (zipLocals (z :: zs)).length) = pre.length := by omega
+    rw [this, if_pos (Or.inl hstart)]
+  rw [ht]
+  simp
+
 end FileFmt
